@@ -41,6 +41,9 @@ struct MsgRec {
   int order = -1;            // index of the submission
   uint64_t cancel_t = INF;   // the application declared the session of the message disconnected
   uint64_t resp_t = INF;     // a (separate, non-piggybacked) response with the token of the request was delivered
+  // position in the trace of the moment libcoap took the ACK/RST resp. the response out of its socket, and of the disconnect: what
+  // happens within one millisecond is ordered by these, not by the clock
+  size_t ack_ev = SIZE_MAX, resp_ev = SIZE_MAX, cancel_ev = SIZE_MAX;
 };
 
 struct SessRec {
@@ -256,7 +259,7 @@ int verif_case(const uint8_t *tape, size_t tlen, Info *info) {
     // the application declares the session of that submission disconnected: its messages in flight end with one NACK each, the messages
     // of the other sessions in the same send queue keep their schedule
     int sess = submits[(size_t)cancel_which].sess;
-    for (auto &m : cs.msgs) if (m.sess == sess && m.cancel_t == INF) m.cancel_t = w.now;
+    for (auto &m : cs.msgs) if (m.sess == sess && m.cancel_t == INF) { m.cancel_t = w.now; m.cancel_ev = w.trace.size(); }
     w.note("application: coap_session_disconnected(session " + std::to_string(sess) + ")");
     gone[(size_t)sess] = 1;
     coap_session_disconnected(cs.sess[(size_t)sess].s, COAP_NACK_NOT_DELIVERABLE);
@@ -265,7 +268,8 @@ int verif_case(const uint8_t *tape, size_t tlen, Info *info) {
   int verdict = HELD;
   // ---- collect per-message facts from the trace ----
   std::vector<std::pair<uint64_t, uint64_t>> waits;
-  for (auto &e : w.trace) {
+  for (size_t ei = 0; ei < w.trace.size(); ei++) {
+    auto &e = w.trace[ei];
     if (e.kind == EV_WAIT) { waits.push_back({e.t, e.val}); continue; }
     ref::Msg m;
     if (e.kind == EV_SEND && e.from_lib) {
@@ -281,13 +285,13 @@ int verif_case(const uint8_t *tape, size_t tlen, Info *info) {
         }
       }
       if (!found) { info->fail("libcoap transmitted a CON (mid %u) that the application never submitted", m.mid); verdict = VIOLATION; break; }
-    } else if (e.kind == EV_DELIVER && !e.dst.is_any()) {
+    } else if (e.kind == EV_READ) {   // the moment libcoap reads it (a datagram that arrives at a closed socket is never read)
       if (!simh::parse(e.data, &m)) continue;
       if (m.type == 1 && m.code == 0x45) {
         for (auto &r : cs.msgs) {
           if (cs.sess[r.sess].peer->addr == e.src && !r.ping && r.token == m.token && !r.tx.empty() && e.t >= r.tx[0] && r.resp_t == INF) {
             Addr loc = Addr::from_coap(coap_session_get_addr_local(cs.sess[r.sess].s));
-            if (loc == e.dst) r.resp_t = e.t;
+            if (loc == e.dst) { r.resp_t = e.t; r.resp_ev = ei; }
           }
         }
         continue;
@@ -297,12 +301,12 @@ int verif_case(const uint8_t *tape, size_t tlen, Info *info) {
         if (cs.sess[r.sess].peer->addr == e.src && r.mid == m.mid && !r.tx.empty() && e.t >= r.tx[0] && r.ack_t == INF) {
           // delivered to this session's socket?
           Addr loc = Addr::from_coap(coap_session_get_addr_local(cs.sess[r.sess].s));
-          if (loc == e.dst) { r.ack_t = e.t; r.ack_type = m.type; }
+          if (loc == e.dst) { r.ack_t = e.t; r.ack_type = m.type; r.ack_ev = ei; }
         }
       }
     }
   }
-  for (auto &r : cs.msgs) if (r.cancel_t < r.ack_t && !r.tx.empty()) { r.ack_t = r.cancel_t; r.ack_type = 4; info->label("session-disconnected-by-application"); }
+  for (auto &r : cs.msgs) if (r.cancel_ev != SIZE_MAX && r.cancel_ev <= r.ack_ev && !r.tx.empty()) { r.ack_t = r.cancel_t; r.ack_type = 4; r.ack_ev = r.cancel_ev; info->label("session-disconnected-by-application"); }
   bool any_retx = false;
   std::string why;
   for (auto &r : cs.msgs) {
@@ -326,7 +330,7 @@ int verif_case(const uint8_t *tape, size_t tlen, Info *info) {
     uint64_t t0 = r.tx[0], a = r.ack_t;
     // the response arrived before any ACK/RST/disconnect: libcoap stops retransmitting the request (RFC 7252 5.2.2 allows that, the
     // property does not ask for it), so only the schedule up to there is judged for this message - the point is what happens to the others
-    bool by_response = r.resp_t < a;
+    bool by_response = r.resp_ev < r.ack_ev;
     if (by_response) info->label("request-ended-by-separate-response");
     for (size_t k = 1; k <= n && !by_response; k++) if (r.tx[k] > a) { info->fail("%s: transmitted at %llu after its %s was delivered at %llu", id, (unsigned long long)r.tx[k], r.ack_type == 2 ? "ACK" : "RST", (unsigned long long)a); verdict = VIOLATION; }
     if (verdict != HELD) break;
